@@ -987,8 +987,15 @@ func (r *runner) emit() lib.Case {
 			effective++
 		}
 	}
+	// does a receiver-specific deviation single out another corrupt seat?
+	targetsCorrupt := false
+	for _, a := range d.Attacks {
+		if HonestTargetOnly[a.Name] && r.isCorrupt(a.Target) {
+			targetsCorrupt = true
+		}
+	}
 	sig := map[string]interface{}{"attack": strings.Join(names, "+"), "phase": strings.Join(phases, "+"),
-		"n_attacks": len(d.Attacks), "corrupt": len(d.Corrupt)}
+		"n_attacks": len(d.Attacks), "corrupt": len(d.Corrupt), "targets_corrupt": targetsCorrupt}
 	key := fmt.Sprintf("n%d-t%d-c%v-%v-o%d-%v", d.N, d.T, d.Corrupt, d.Attacks, d.OrderSeed, d.Shuffle)
 	return lib.Case{ID: d.ID, Coq: "(" + coq + ")", Key: key, Nontrivial: effective > 0, Sig: sig, In: d,
 		Out: map[string]interface{}{"members": outs, "notes": r.notes}}
